@@ -25,6 +25,7 @@
 package builder
 
 import (
+	"github.com/kstenerud/go-concise-encoding/internal/common"
 	"reflect"
 
 	"github.com/kstenerud/go-concise-encoding/configuration"
@@ -47,6 +48,7 @@ type Context struct {
 
 	chunkedData             []byte
 	chunkRemainingLength    uint64
+	arrayElementBitWidth    int
 	moreChunksFollow        bool
 	arrayCompletionCallback func(*Context)
 
@@ -164,15 +166,17 @@ func (_this *Context) TryBuildFromCustomText(builder Builder, customType uint64,
 	}
 }
 
-func (_this *Context) BeginArray(arrayCompletionCallback func(*Context)) {
+func (_this *Context) BeginArray(elementBitWidth int, arrayCompletionCallback func(*Context)) {
 	_this.arrayCompletionCallback = arrayCompletionCallback
+	_this.arrayElementBitWidth = elementBitWidth
 	_this.chunkedData = _this.chunkedData[:0]
 }
 func (_this *Context) ContinueMultiComponentArray(arrayCompletionCallback func(*Context)) {
 	_this.arrayCompletionCallback = arrayCompletionCallback
 }
 func (_this *Context) BeginArrayChunk(length uint64, moreChunksFollow bool) {
-	_this.chunkRemainingLength = length
+	// The chunk length is in elements; the data arrives in bytes.
+	_this.chunkRemainingLength = common.ElementCountToByteCount(_this.arrayElementBitWidth, length)
 	_this.moreChunksFollow = moreChunksFollow
 	if !_this.moreChunksFollow && _this.chunkRemainingLength == 0 {
 		_this.arrayCompletionCallback(_this)
